@@ -43,6 +43,9 @@ def gen_case(rng, tier):
         steps = rng.choice([2, 3])
         case = {"mdl": mdl, "run": {"T": C.q2s(dt * steps), "dt": C.q2s(dt), "solver": "euler", "outputs": outputs, "vectorize": rng.random() < 0.6},
                 "style": {}, "in_place": rng.random() < 0.5, "form": form}
+        if rng.random() < 0.25:
+            case["in_place"] = True
+            case["first_run"] = {"vectorize": not case["run"]["vectorize"]}     # the same template object was run before with the other vectorization setting
         o = N.oracle_traj(case)
         if "error" in o or o["bits"] > 44:
             continue
@@ -182,7 +185,7 @@ def check(tier, seed, replay=None):
             raise C.HarnessError("harness child crashed: " + str(im)[:800])
         outs = case["run"]["outputs"]
         reqs = list(outs.values()) if isinstance(outs, dict) else outs
-        rep.count(f"{case['form']}-{'vec' if case['run']['vectorize'] else 'novec'}", json.dumps(case, sort_keys=True), nontrivial=(len(reqs) > 1 or any("all" in r.split("/") for r in reqs)))
+        rep.count(f"{case['form']}-{'vec' if case['run']['vectorize'] else 'novec'}" + ("-second-run-on-template" if case.get("first_run") else ""), json.dumps(case, sort_keys=True), nontrivial=(len(reqs) > 1 or any("all" in r.split("/") for r in reqs)))
         mr = drv.ask(N.model_traj_request(case, orc["flat"]))
         if mr.get("rows") != orc["rows"]:
             raise C.HarnessError("Lean model and oracle disagree: " + json.dumps(case)[:400])
